@@ -5,6 +5,7 @@ output changes.
 import OfxModel.Generated.Tables
 import OfxModel.Ofx.SecId
 import OfxModel.Spec.SecId
+import OfxModel.Py.Str
 
 namespace Ofx.Gen
 open Ofx Ofx.Generated
@@ -16,5 +17,8 @@ theorem agencies_alnum :
 /-- agency keys are pairwise distinct and non-empty -/
 theorem agencies_nodup : numberingAgencies.Nodup ∧ numberingAgencies.all (fun a => !a.isEmpty) = true := by
   decide +kernel
+
+/-- the hand-written `isspace` table is the running interpreter's -/
+theorem isspace_table : pySpaceCodepoints = isspaceCodepoints := by decide +kernel
 
 end Ofx.Gen
